@@ -63,6 +63,8 @@ def parse_state_type(text):
 def fnum(v):
     if isinstance(v, bool):
         return ".true." if v else ".false."
+    if isinstance(v, float) and v != v:
+        return "ieee_value(1d0, ieee_quiet_nan)"
     r = repr(float(v))
     if "e" in r:
         return r.replace("e", "d")
@@ -77,6 +79,7 @@ def driver_source(module, fields, init_args, nsteps, shapes=None):
     a = L.append
     a("program verif_driver")
     a("  use %s, only: dagrt_state_type, v_initialize => initialize, v_run => run, v_shutdown => shutdown" % module)
+    a("  use, intrinsic :: ieee_arithmetic, only: ieee_value, ieee_quiet_nan")
     a("  implicit none")
     a("  type(dagrt_state_type), target :: st")
     a("  type(dagrt_state_type), pointer :: sp")
